@@ -1,0 +1,19 @@
+//go:build verif
+
+package exec
+
+import (
+	r "github.com/DemoHn/Zn/pkg/runtime"
+)
+
+// VerifUnwrapError - (verification hook) read-only view into the error wrappers:
+// the wrapped error and, for runtime errors, the VM it arose in.
+func VerifUnwrapError(err error) (error, *r.VM) {
+	switch e := err.(type) {
+	case *SyntaxErrorWrapper:
+		return e.err, nil
+	case *RuntimeErrorWrapper:
+		return e.err, e.vm
+	}
+	return err, nil
+}
